@@ -454,13 +454,30 @@ def rule_SB(ctx, tier):
             rr.ok("expiry looked up for the given user")
         else:
             rr.fail("expiry-user", "has_subscription_expired looks up `%s`" % og.show(arg_origin(ctx, h, bb, 1)), where=h.line_of(bb))
-    f = P.require(GK + "get_outdated_users::{closure#0}")
-    ret = ctx.og.local(f, 0)
-    good = _cmp_any(ret, lambda op, l, r: op == "Ge" and l == ("param", GK + "get_outdated_users", 2) and "Add" in og.show(r) and "f:subscription_expiry" in og.show(r) and "f:expiry_delta" in og.show(r))
-    if good:
-        rr.ok("outdated = (block_height >= subscription_expiry + expiry_delta)", sample={"rule": "SB", "get_outdated_users filter": og.show(ret)[:200]})
+    # the purge predicate, whether it is written as an iterator filter closure or as an `if` around a push in a loop
+    gou = P.require(GK + "get_outdated_users")
+    from .rulekit import rel_of_term
+
+    def is_purge_cmp(op, l, r):
+        return op == "Ge" and l == ("param", GK + "get_outdated_users", 2) and "Add" in og.show(r) and "f:subscription_expiry" in og.show(r) and "f:expiry_delta" in og.show(r)
+    cands = []  # (description, [(op, l, r)...])
+    for cid in P.family(gou.id):
+        cb = P.bodies[cid]
+        if cid != gou.id:
+            rt = ctx.og.local(cb, 0)
+            if rel_of_term(rt, True):
+                cands.append((og.show(rt)[:200], rel_of_term(rt, True)))
+        for bb in sites_containing(cb, "Vec", "::push"):
+            rels = []
+            for f_ in facts_at(ctx, cb, bb):
+                if f_[0] == "truth":
+                    rels.extend(rel_of_term(f_[1], f_[2]))
+            if rels:
+                cands.append(("if %s { push }" % og.show(("bin", rels[0][0], rels[0][1], rels[0][2]))[:160], rels))
+    if len(cands) == 1 and any(is_purge_cmp(*x) for x in cands[0][1]):
+        rr.ok("outdated = (block_height >= subscription_expiry + expiry_delta)", sample={"rule": "SB", "get_outdated_users filter": cands[0][0]})
     else:
-        rr.fail("purge-comparison", "get_outdated_users filters on `%s`; expected block_height >= subscription_expiry + expiry_delta" % og.show(ret)[:200], where=f.span)
+        rr.fail("purge-comparison", "get_outdated_users selects users with `%s`; expected exactly one test, block_height >= subscription_expiry + expiry_delta" % (" / ".join(c[0] for c in cands)[:200] or "no comparison"), where=gou.span)
     # renewal
     r = P.require(GK + "add_update_user")
     ws = field_writes(ctx, r, "subscription_expiry")
